@@ -51,7 +51,8 @@ def discover_forms(env, kind):
 def run(chk):
     facts = F.load("dbg")
     env = Env(facts)
-    nmax = 8 if chk.tier == "quick" else 12
+    # every size the const-generic aliases offer (Lut0..Lut12); the dynamic Lut also at 13..14 in the thorough tier
+    nmax = 12
     chk.trust("rustc MIR construction and constant evaluation (nightly 1.97)")
     chk.trust("std summaries in analysis/stdmodel.py")
     chk.trust("specification generators in analysis/specs.py")
@@ -62,7 +63,7 @@ def run(chk):
         forms = discover_forms(env, kind)
         for b, op, ar, inplace, label in forms:
             per_op[(kind, op)] = per_op.get((kind, op), 0) + 1
-            for n in range(0, nmax + 1):
+            for n in range(0, (14 if chk.tier == "thorough" and kind == "dyn" else nmax) + 1):
                 key = "%s n=%d" % (label, n)
                 try:
                     it, outs, ops = call_with_tables(env, kind, b, n, ["a", "b"])
@@ -92,7 +93,7 @@ def run(chk):
         for op, fl in (("not", 4), ("and", 8), ("or", 8), ("xor", 8)):
             chk.floor("C01.F forms %s %s" % (kind, op), per_op.get((kind, op), 0), fl)
     chk.notes["forms"] = {"%s %s" % k: v for k, v in per_op.items()}
-    chk.notes["n_range"] = [0, nmax]
+    chk.notes["n_range"] = [0, nmax] if chk.tier == "quick" else {"static": [0, 12], "dyn": [0, 14]}
     if chk.tier == "thorough":
         from .. import witnesses
         witnesses.run(chk, "C01", ['W4'])
